@@ -19,7 +19,6 @@ package expr
 import (
 	"fmt"
 	"runtime/debug"
-	"strconv"
 	"strings"
 
 	"github.com/antlr4-go/antlr/v4"
@@ -120,6 +119,49 @@ func (l *ParseTreeListener) parseExpr(key string, ctx IExprContext) {
 	}
 }
 
+// unquote strips the surrounding double quotes of a STRING token and resolves
+// exactly the escape sequences admitted by the lexer: \" \\ \/ \b \f \n \r \t.
+// Any other character, including a raw line break, is taken literally.
+func unquote(s string) (string, error) {
+	if len(s) < 2 || s[0] != '"' || s[len(s)-1] != '"' {
+		return "", fmt.Errorf("invalid string literal %q", s)
+	}
+	s = s[1 : len(s)-1]
+	if !strings.Contains(s, "\\") {
+		return s, nil
+	}
+	var b strings.Builder
+	b.Grow(len(s))
+	for i := 0; i < len(s); i++ {
+		c := s[i]
+		if c != '\\' {
+			b.WriteByte(c)
+			continue
+		}
+		i++
+		if i >= len(s) {
+			return "", fmt.Errorf("invalid string literal %q", s)
+		}
+		switch s[i] {
+		case '"', '\\', '/':
+			b.WriteByte(s[i])
+		case 'b':
+			b.WriteByte('\b')
+		case 'f':
+			b.WriteByte('\f')
+		case 'n':
+			b.WriteByte('\n')
+		case 'r':
+			b.WriteByte('\r')
+		case 't':
+			b.WriteByte('\t')
+		default:
+			return "", fmt.Errorf("invalid escape sequence in string literal %q", s)
+		}
+	}
+	return b.String(), nil
+}
+
 // parseInnerExpr processes a single key-value assignment inside an expression block.
 func (l *ParseTreeListener) parseInnerExpr(key string, ctx IInnerExprContext) {
 	fieldKey := ctx.FieldAccess().GetText()
@@ -128,7 +170,7 @@ func (l *ParseTreeListener) parseInnerExpr(key string, ctx IInnerExprContext) {
 	}
 	switch {
 	case ctx.Value().STRING() != nil:
-		s, err := strconv.Unquote(ctx.Value().STRING().GetText())
+		s, err := unquote(ctx.Value().STRING().GetText())
 		if err != nil {
 			panic(err)
 		}
